@@ -372,7 +372,7 @@ func (f *File) startSegmentIfNeeded(b Box, boxStartPos uint64) {
 				if ref.ReferenceType == 1 {
 					continue sidxLoop
 				}
-				if boxStartPos == startPos && idx == segIdx {
+				if boxStartPos >= startPos && idx == segIdx {
 					segStart = true
 					break sidxLoop
 				}
